@@ -23,6 +23,7 @@ import (
 
 	"github.com/grailbio/bigslice"
 	"github.com/grailbio/bigslice/exec"
+	"github.com/grailbio/bigslice/metrics"
 	"github.com/grailbio/bigslice/verifrt/vsched"
 	"verifh/ev"
 	"verifh/mc"
@@ -52,6 +53,36 @@ var fSrc = bigslice.Func(func(tag, nshard int) bigslice.Slice {
 		return k, v + tag
 	})
 })
+
+// fCount: Const(nshard) -> Map that increments a user metric once per row.
+var (
+	rowCounter = metrics.NewCounter()
+	fCount     = bigslice.Func(func(nshard int) bigslice.Slice {
+		s := bigslice.Const(nshard, append([]int{}, srcKeys...), []int{10, 20, 30})
+		return bigslice.Map(s, func(ctx context.Context, k, v int) (int, int) {
+			rowCounter.Incr(metrics.ContextScope(ctx), 1)
+			return k, v
+		})
+	})
+)
+
+// scopeBody: the counters of a result are complete as soon as Run has returned (C20:
+// "for a failure-free run the counters reported for a result equal the sum of the
+// increments performed while computing it").
+func scopeBody(nshard int) func(sess *exec.Session, o *outcome) {
+	return func(sess *exec.Session, o *outcome) {
+		res, err := sess.Run(context.Background(), fCount, nshard)
+		if err != nil {
+			vsched.Fail("C: Run failed: %v", strings.ReplaceAll(err.Error(), "\n", " // "))
+			return
+		}
+		sc := res.Scope()
+		if got := rowCounter.Value(sc); got != int64(len(srcKeys)) {
+			vsched.Fail("C: metrics counter of the result reads %d right after Run returned, %d rows were processed", got, len(srcKeys))
+		}
+		o.add("C=%d", rowCounter.Value(sc))
+	}
+}
 
 // fMapOf: pipelined consumer of a result.
 var fMapOf = bigslice.Func(func(r bigslice.Slice, mul int) bigslice.Slice {
@@ -255,6 +286,7 @@ func scenarios() []scen {
 		p := p
 		sfx := fmt.Sprintf("/p%d", p)
 		out = append(out,
+			scen{"scope" + sfx, []string{"C20"}, p, scopeBody(2)},
 			scen{"run2" + sfx, []string{"C19"}, p, func(sess *exec.Session, o *outcome) {
 				par(func() { runWant(sess, o, "A", srcRows(0), fSrc, 0, 1) },
 					func() { runWant(sess, o, "B", srcRows(1), fSrc, 1, 1) })
@@ -369,6 +401,14 @@ func scenarios() []scen {
 					scanPrefix(o, "S", r, srcRows(0))
 				})
 			runWant(sess, o, "H", mapRows(0, 100), fMapOf, r, 100)
+		}},
+		scen{"dist/scope1", []string{"C20"}, 1, func(sess *exec.Session, o *outcome) {
+			vsched.Prelude(func() { runWant(sess, o, "R", srcRows(1), fSrc, 1, 1) }) // boots the machine
+			scopeBody(1)(sess, o)
+		}},
+		scen{"dist/scope2", []string{"C20"}, 2, func(sess *exec.Session, o *outcome) {
+			vsched.Prelude(func() { runWant(sess, o, "R", srcRows(1), fSrc, 1, 1) })
+			scopeBody(2)(sess, o)
 		}},
 		scen{"dist/mix3", []string{"C19", "C12"}, 1, func(sess *exec.Session, o *outcome) {
 			var r *exec.Result
@@ -548,6 +588,8 @@ func mkScenario(s scen) *mc.Scenario {
 		switch {
 		case strings.HasPrefix(l, "deadlock"):
 			return "deadlock"
+		case strings.Contains(l, "metrics counter"):
+			return "counters-incomplete-after-run"
 		case strings.Contains(l, "Run failed"):
 			return "run-failed"
 		case strings.Contains(l, "rows ") && strings.Contains(l, "want"):
